@@ -295,7 +295,8 @@ CLAIMED['C08'] = dict(
          'ANY number of checkpoint/restore cuts at step boundaries, also several in a row: the call traces of the abandoned instances '
          'up to their checkpoints followed by the trace of the last instance ARE the uninterrupted trace, state objects equal up to '
          'the wait-future index, futures equal), C08_plain_same_outcome (same result + success flag / exception / KILLED), '
-         'C08_plain_no_reexecution_no_skip, C08_plain_same_point, C08_plain_restore_at_boundary, C08_plain_save_restore_save; '
+         'C08_plain_no_reexecution_no_skip, C08_plain_same_point, C08_plain_restore_at_boundary, C08_plain_save_restore_save, '
+         'C08_plain_bundle_roundtrip (what restoreCfg reads survives Persist.save / medium / Persist.load of C07); '
          'hypothesis: no callback of the uninterrupted run exhausts the model fuel. C08_continuation_persisted: run function, args, '
          'kwargs, callback, outputs, inputs survive save/load in the persistence model of C07. Not proved: histories with pause / '
          'play / kill next to crashes; outputs / inputs of plain processes (not in the process-control model; monitors). Real '
